@@ -182,6 +182,21 @@ def _str_marker(v):
 core.STR_HOOK[0] = _str_marker
 
 
+class Formatted:
+    """registry of formatted symbolic integers: token -> (value, format spec)"""
+    table = {}
+
+
+def _fmt_marker(v, spec):
+    tok = '\u27e6%d:%s\u27e7' % (id(v), spec)
+    Formatted.table[tok] = (v, spec)
+    Markers.keep.append(v)
+    return tok
+
+
+core.FMT_HOOK[0] = _fmt_marker
+
+
 def _int(*a, **kw):
     if a and isinstance(a[0], str):
         m = MARK.fullmatch(a[0].strip())
